@@ -23,7 +23,7 @@
 package netflow9
 
 import (
-	"encoding/binary"
+	"encoding/hex"
 	"encoding/json"
 	"hash/fnv"
 	"io/ioutil"
@@ -46,7 +46,7 @@ type Data struct {
 
 // TemplatesShard represents a shard
 type TemplatesShard struct {
-	Templates map[uint32]Data
+	Templates map[string]Data
 	sync.RWMutex
 }
 type memCacheDisk struct {
@@ -72,22 +72,24 @@ func GetCache(cacheFile string) MemCache {
 
 	m := make(MemCache, shardNo)
 	for i := 0; i < shardNo; i++ {
-		m[i] = &TemplatesShard{Templates: make(map[uint32]Data)}
+		m[i] = &TemplatesShard{Templates: make(map[string]Data)}
 	}
 
 	return m
 }
 
-func (m MemCache) getShard(id uint16, addr net.IP) (*TemplatesShard, uint32) {
-	b := make([]byte, 2)
-	binary.BigEndian.PutUint16(b, id)
-	key := append(addr, b...)
+func (m MemCache) getShard(id uint16, addr net.IP) (*TemplatesShard, string) {
+	// the templates are kept under the full exporter address and template id;
+	// the hash only selects the shard, so two exporters can not share an entry
+	key := make([]byte, 0, len(addr)+2)
+	key = append(key, addr...)
+	key = append(key, byte(id>>8), byte(id))
 
 	hash := fnv.New32()
 	hash.Write(key)
 	hSum32 := hash.Sum32()
 
-	return m[uint(hSum32)%uint(shardNo)], hSum32
+	return m[uint(hSum32)%uint(shardNo)], hex.EncodeToString(key)
 }
 
 func (m *MemCache) insert(id uint16, addr net.IP, tr TemplateRecord) {
